@@ -253,6 +253,16 @@ impl Report {
             let rdir = vdir.join("replays").join(id).join("found");
             let _ = std::fs::create_dir_all(&rdir);
             for (k, f) in self.failures.iter().enumerate() {
+                if f.replay["engine"] == "FUZZ" {
+                    // the saved raw input is the reproducible unit
+                    violation_lines.push(format!(
+                        "VIOLATION property={} replay={}",
+                        id,
+                        f.replay["input_file"].as_str().unwrap_or("?")
+                    ));
+                    println!("  {}", f.message);
+                    continue;
+                }
                 let name = format!(
                     "{}-seed{}-{:08x}-{}.json",
                     self.ctx.tier.name(),
